@@ -275,8 +275,7 @@ pub fn apply_storage_op(ex: &mut Exec, uid: u32, kind: &OpKind) -> R {
             let idxs: Vec<u32> = ex.model.comps[s].keys().copied().take(*take as usize).collect();
             let mut exp = vec![];
             for i in idxs {
-                let hn = ex.model.occ[&i];
-                let v = ex.model.remove(s, hn).unwrap();
+                let v = ex.model.remove_raw(s, i).unwrap();
                 exp.push((i, v));
             }
             ex.stats.values_returned += exp.len() as u64;
@@ -358,11 +357,7 @@ pub fn apply_storage_op(ex: &mut Exec, uid: u32, kind: &OpKind) -> R {
                     None => return ex.skip(),
                 }
             };
-            let visited: Vec<(u32, V)> = ex.model.comps[s]
-                .iter()
-                .take(*take as usize)
-                .map(|(i, v)| (*i, *v))
-                .collect();
+            let visited: Vec<(u32, V)> = ex.model.joined(s).into_iter().take(*take as usize).collect();
             for (i, _) in &visited {
                 let (m, wr) = act_of(&racts, *i);
                 ex.model.mut_access(s, *i, if *lend { m } else { false }, wr);
@@ -428,7 +423,7 @@ pub fn apply_storage_op(ex: &mut Exec, uid: u32, kind: &OpKind) -> R {
             let oes: Vec<Entity> = os.iter().map(|x| x.1).collect();
             let got = ex.slots[s].restrict_read(ex.w(), *lend, *take as usize, &oes);
             let mut exp = vec![];
-            for (i, v) in ex.model.comps[s].iter().take(*take as usize) {
+            for (i, v) in ex.model.joined(s).iter().take(*take as usize) {
                 exp.push(RestrictItem {
                     idx: *i,
                     own: *v,
@@ -438,6 +433,7 @@ pub fn apply_storage_op(ex: &mut Exec, uid: u32, kind: &OpKind) -> R {
             for (hn, _) in &os {
                 ex.note_probe(*hn);
             }
+            *ex.stats.probes.entry("restricted_items_visited".into()).or_insert(0) += exp.len() as u64;
             if got != exp {
                 let d = crate::wexec::first_diff(&got, &exp);
                 return Err(ex.viol(
@@ -467,17 +463,16 @@ pub fn apply_storage_op(ex: &mut Exec, uid: u32, kind: &OpKind) -> R {
                 acts: &racts,
             };
             let Some(got) = ex.slots[s].restrict_shared(ex.w(), &plan) else { return ex.skip() };
-            let visited: Vec<(u32, V)> = ex.model.comps[s]
-                .iter()
-                .take(*take as usize)
-                .map(|(i, v)| (*i, *v))
-                .collect();
+            let visited: Vec<(u32, V)> = ex.model.joined(s).into_iter().take(*take as usize).collect();
             for (i, _) in &visited {
                 let (m, wr) = act_of(&racts, *i);
                 if m || wr.is_some() {
                     ex.model.mut_access(s, *i, true, wr);
                 }
             }
+            *ex.stats.probes.entry("restricted_items_visited".into()).or_insert(0) += visited.len() as u64;
+            *ex.stats.probes.entry("restricted_items_fetched_mutably".into()).or_insert(0) +=
+                visited.iter().filter(|(i, _)| { let (m, w) = act_of(&racts, *i); m || w.is_some() }).count() as u64;
             if got != visited {
                 return Err(ex.viol(
                     &["C13"],
@@ -505,7 +500,7 @@ pub fn apply_storage_op(ex: &mut Exec, uid: u32, kind: &OpKind) -> R {
                 acts: &racts,
             };
             let got = ex.slots[s].restrict_excl(ex.w(), &plan, &oes);
-            let idxs: Vec<u32> = ex.model.comps[s].keys().copied().take(*take as usize).collect();
+            let idxs: Vec<u32> = ex.model.joined(s).iter().map(|x| x.0).take(*take as usize).collect();
             let mut exp = vec![];
             for i in idxs {
                 let own = ex.model.comps[s][&i];
@@ -534,6 +529,7 @@ pub fn apply_storage_op(ex: &mut Exec, uid: u32, kind: &OpKind) -> R {
             for (hn, _, _) in &os {
                 ex.note_probe(*hn);
             }
+            *ex.stats.probes.entry("restricted_items_visited".into()).or_insert(0) += exp.len() as u64;
             if got != exp {
                 let d = crate::wexec::first_diff(&got, &exp);
                 return Err(ex.viol(
@@ -791,7 +787,10 @@ fn check_slice(ex: &mut Exec, s: usize, got: &Option<SliceOut>) -> R {
                         let is_default = v.1 == FILLER_PAYLOAD
                             && ledger::is_filler(v.0)
                             && ledger::state(v.0) == Some(ledger::VState::Live);
-                        if !is_default {
+                        let limbo_ok = ex.cfg.faults
+                            && ex.stats.faults_fired > 0
+                            && ledger::state(v.0) == Some(ledger::VState::Live);
+                        if !is_default && !limbo_ok {
                             return bad(
                                 ex,
                                 format!(
@@ -927,7 +926,43 @@ fn changeset_op(ex: &mut Exec, pairs: &[(H, i64)], consume: CsConsume) -> R {
             for v in exp.values() {
                 ex.model.exp_destroyed.push(v.0);
             }
-            cs.clear();
+            if ex.cfg.faults {
+                // keep the change set alive across a destructor panic and look at it afterwards
+                let r = std::panic::catch_unwind(std::panic::AssertUnwindSafe(|| cs.clear()));
+                if let Err(payload) = r {
+                    let seen = std::panic::catch_unwind(std::panic::AssertUnwindSafe(|| read(&cs)));
+                    match seen {
+                        Ok(vals) => {
+                            for v in vals {
+                                if ledger::state(v.0) != Some(ledger::VState::Live) {
+                                    return Err(ex.viol(
+                                        &["C19"],
+                                        "read-of-dead-value",
+                                        format!(
+                                            "after a destructor panicked inside ChangeSet::clear, joining the change set still yields value {} whose ledger state is {:?}",
+                                            v.0,
+                                            ledger::state(v.0)
+                                        ),
+                                    ));
+                                }
+                            }
+                        }
+                        Err(e) => {
+                            return Err(ex.viol(
+                                &["C19"],
+                                "post-fault-panic",
+                                format!(
+                                    "after a destructor panicked inside ChangeSet::clear, joining the change set panicked: {}",
+                                    crate::util::panic_message(&e)
+                                ),
+                            ))
+                        }
+                    }
+                    std::panic::resume_unwind(payload);
+                }
+            } else {
+                cs.clear();
+            }
             let got = read(&cs);
             if !got.is_empty() {
                 return Err(ex.viol(
